@@ -61,8 +61,31 @@ fn random_bytes(r: &mut Rng) -> Vec<u8> {
 
 pub fn run(ctx: &mut Ctx) {
     let prop = "C15";
-    ctx.ev.rule = "(a) validator: generated transactions with zero/negative quantities, prices, fees, totals and ratios: validate() reports an error iff the property's predicate holds; compared with the Lean model's error count. (b) library under catch_unwind with a time limit: parse_file on arbitrary byte strings (random bytes, DSL alphabet soup, one-byte corruptions, non-ASCII) and calculate() on hostile ledgers (zero quantities and prices, 1e-28, magnitudes up to 7.9e28, sells first, dates 0001-01-01/9999-12-31/range edges): Ok or Err, never a panic — except inside known-finding class overflowMagnitude (D9). (d) the MCP tools: one pipelined session per 24 requests of malformed JSON texts (raw newlines inside strings, truncated arrays, BOM), hostile ledgers and random bytes over calculate_report, parse_transactions, convert_to_dsl, explain_matching: every request id answered exactly once, clean exit. (e) the Schwab converter in-process on generated exports (free text of up to 200 mixed-width characters), with and without an awards file, and on damaged JSON: a result or an error, never a panic. (c) the real binary: the same inputs as files, missing files (alone and among several inputs, as are a directory and a non-UTF-8 file), unwritable and pre-existing --output paths, default PDF path with an existing file: on failure non-zero exit (not 101, no signal), empty stdout, --output untouched; on success exit 0. Non-trivial = inputs that are rejected cleanly, and validator cases with ≥ 1 bad field; distinct by input.".into();
+    ctx.ev.rule = "(a) validator: generated transactions with zero/negative quantities, prices, fees, totals and ratios: validate() reports an error iff the property's predicate holds; compared with the Lean model's error count. (b) library under catch_unwind with a time limit: parse_file on arbitrary byte strings (random bytes, DSL alphabet soup, one-byte corruptions, non-ASCII) and calculate() on hostile ledgers (zero quantities and prices, 1e-28, magnitudes up to 7.9e28, sells first, dates 0001-01-01/9999-12-31/range edges): Ok or Err, never a panic — except inside known-finding class overflowMagnitude (D9). (d) the MCP tools: one pipelined session per 24 requests of malformed JSON texts (raw newlines inside strings, truncated arrays, BOM), hostile ledgers and random bytes over calculate_report, parse_transactions, convert_to_dsl, explain_matching: every request id answered exactly once, clean exit. (f) covered sales dated at the ends of chrono's date range (library): no panic. (e) the Schwab converter in-process on generated exports (free text of up to 200 mixed-width characters), with and without an awards file, and on damaged JSON: a result or an error, never a panic. (c) the real binary: the same inputs as files, missing files (alone and among several inputs, as are a directory and a non-UTF-8 file), unwritable and pre-existing --output paths, default PDF path with an existing file: on failure non-zero exit (not 101, no signal), empty stdout, --output untouched; on success exit 0. Non-trivial = inputs that are rejected cleanly, and validator cases with ≥ 1 bad field; distinct by input.".into();
 
+    // (f) dates at the ends of chrono's range (reachable through the library and the JSON input, whose years
+    // are not limited to four digits): a covered sale within 30 days of the last or first representable date,
+    // with and without a later purchase — a result or an error, never a panic
+    {
+        use chrono::NaiveDate;
+        for (k, base) in [NaiveDate::MAX, NaiveDate::MAX - chrono::Duration::days(29), NaiveDate::MAX - chrono::Duration::days(31), NaiveDate::MIN + chrono::Duration::days(40), NaiveDate::from_ymd_opt(9999, 12, 31).expect("d"), NaiveDate::from_ymd_opt(10000, 1, 1).expect("d")].into_iter().enumerate() {
+            let buy_day = base - chrono::Duration::days(35);
+            let mut l: Ledger = vec![
+                GTx::new(buy_day, "AAA", Kind::Buy, Decimal::from(10), Decimal::from(5), Decimal::ZERO),
+                GTx::new(base, "AAA", Kind::Sell, Decimal::from(4), Decimal::from(7), Decimal::ZERO),
+            ];
+            if k % 2 == 1 { if let Some(later) = base.checked_add_signed(chrono::Duration::days(3)) { l.push(GTx::new(later, "AAA", Kind::Buy, Decimal::from(2), Decimal::from(6), Decimal::ZERO)); } }
+            ctx.ev.evaluations += 1;
+            ctx.ev.count("far-date-ledgers");
+            let txs = ledger::to_txs(&l);
+            let cfg = run_impl::config_from(&run_impl::wide_exemptions());
+            match std::panic::catch_unwind(std::panic::AssertUnwindSafe(|| cgt_core::calculator::calculate(&txs, None, None, &cfg))) {
+                Err(p) => ctx.ev.violation("crash", format!("calculate() panics on a ledger dated {base}: {}", run_impl::panic_msg(p)), format!("# property C15\n# library: calculate() on a covered sale dated {base} (purchase 35 days before{})\n", if l.len() == 3 { ", repurchase 3 days after" } else { "" })),
+                Ok(Ok(_)) => ctx.ev.count("far-date:report"),
+                Ok(Err(_)) => ctx.ev.count("far-date:clean-error"),
+            }
+        }
+    }
     // (e) the converter, in-process under catch_unwind: generated Schwab exports (every row kind, hostile
     // spellings, free text of up to 200 mixed-width characters), the same with an awards file, and damaged
     // JSON — a result or an error, never a panic
